@@ -267,6 +267,8 @@ def jobs(tier, seed):
     add('nonlin', model='exp', xs=[0.5, 1.0, 2.0], ylay=[E, E, E], priors={'1': F_})
     add('nonlin', model='rational', xs=[0.5, 1.0, 2.0], ylay=[E, E, F_], priors={'0': E, '1': F_})
     add('nonlin', model='exp', xs=[0.5, 1.0, 2.0], ylay=[E, E, E], correlated=True)
+    add('nonlin', model='exp', xs=[0.5, 1.0, 2.0], ylay=[E, E, E], correlated=True, priors={'1': F_})
+    add('nonlin', model='rational', xs=[0.5, 1.0, 2.0], ylay=[E, E, F_], correlated=True, priors={'1': E, '0': F_})
     add('nonlin', model='exp', xs=[0.5, 1.0, 2.0], ylay=[E, E, F_], method='migrad')
     add('nonlin', model='cosh', xs=[0.0, 1.0, 3.0], ylay=[E, E, F_], method='Nelder-Mead')
     add('nonlin', model='exp', xs=[0.5, 1.0, 2.0], ylay=[E, E, F_], num_grad=True)
